@@ -39,6 +39,15 @@ Fixpoint find_field (fs : list (fmeta * tdesc)) (id : Z) : option (fmeta * tdesc
   | f :: r => if f_id (fst f) =? id then Some f else find_field r id
   end.
 
+(* the declared keys are byte strings *)
+Fixpoint desc_ok (d : tdesc) : bool :=
+  match d with
+  | DStruct fs => forallb (fun f => jbytes_okb (f_key (fst f)) && desc_ok (snd f)) fs
+  | DMap k v => desc_ok k && desc_ok v
+  | DList _ e => desc_ok e
+  | _ => true
+  end.
+
 (* ---- options (bit numbers of the case format) ---- *)
 Definition o_int642string (o : Z) := Z.testbit o 0.
 Definition o_byte_as_uint8 (o : Z) := Z.testbit o 1.
@@ -86,9 +95,9 @@ Inductive jexp :=
 Inductive tres :=
 | TOk (e : jexp)
 | TExc (e : jexp)                    (* ConvertException: an error whose text is the JSON of the exception field *)
-| TErr (cls : Z).                    (* 2 unknown field disallowed, 3 unsupported map key type, 4 missing required field, 5 js_conv on an unsupported type *)
+| TErr (cls : Z).                    (* 1 a non-finite double was met before the exception field, 2 unknown field disallowed, 3 unsupported map key type, 4 missing required field, 5 js_conv on an unsupported type *)
 
-Definition E_UNKNOWN := 2. Definition E_KEYTYPE := 3. Definition E_REQUIRED := 4. Definition E_JSCONV := 5.
+Definition E_NONFINITE := 1. Definition E_UNKNOWN := 2. Definition E_KEYTYPE := 3. Definition E_REQUIRED := 4. Definition E_JSCONV := 5.
 
 (* all-or-first-error over a list of results *)
 Fixpoint all_ok (l : list tres) : list jexp + Z :=
@@ -197,6 +206,16 @@ Fixpoint json_of (o : Z) (d : tdesc) (v : tval) {struct v} : tres :=
     end
   end.
 
+(* no NaN / Inf anywhere: the tree has a JSON spelling *)
+Fixpoint jexp_finite (e : jexp) : bool :=
+  match e with
+  | EDouble b => f64_is_finite b
+  | EQuoted e' => jexp_finite e'
+  | EArr xs => forallb jexp_finite xs
+  | EObj ms => forallb (fun m => jexp_finite (snd m)) ms
+  | _ => true
+  end.
+
 (* ---- the root (do): thrift base extraction and ConvertException on top of the member walk ---- *)
 Definition field_value (o : Z) (f : fmeta * tdesc) (x : tval) : tres :=
   if o_value_mapping o && f_jsconv (fst f) then jsconv o x else json_of o (snd f) x.
@@ -214,7 +233,8 @@ Fixpoint root_walk (o : Z) (fs : list (fmeta * tdesc)) (vs : list (Z * tval))
       if o_thrift_base o && o_base_in_ctx o && f_respbase (fst f) then root_walk o fs r acc (id :: seen) (Some x)
       else if o_convert_exception o && negb (id =? 0) then
         match field_value o f x with
-        | TOk e => (if missing_required fs (id :: seen) then TErr E_REQUIRED else TExc e, bs)
+        | TOk e => (if negb (forallb (fun m => jexp_finite (snd m)) acc) then TErr E_NONFINITE   (* the members before it had no spelling *)
+                    else if missing_required fs (id :: seen) then TErr E_REQUIRED else TExc e, bs)
         | TExc _ => (TErr 0, bs)
         | TErr c => (TErr c, bs)
         end
@@ -234,15 +254,6 @@ Definition t2j_spec (o : Z) (d : tdesc) (v : tval) : tres * option tval :=
   end.
 
 (* ---- properties of expected trees ---- *)
-Fixpoint jexp_finite (e : jexp) : bool :=
-  match e with
-  | EDouble b => f64_is_finite b
-  | EQuoted e' => jexp_finite e'
-  | EArr xs => forallb jexp_finite xs
-  | EObj ms => forallb (fun m => jexp_finite (snd m)) ms
-  | _ => true
-  end.
-
 Fixpoint jexp_utf8 (e : jexp) : bool :=
   match e with
   | EStr s | EStrV s => utf8_valid s
